@@ -1,6 +1,7 @@
 package c09
 
 import (
+	"net/netip"
 	"bytes"
 	"context"
 	"encoding/binary"
@@ -143,6 +144,9 @@ type probeResult struct {
 }
 
 // scionWrap puts an NTP payload into a SCION/UDP packet from the harness's end host to the listener.
+// wrapSrc, wrapDst: the SCION host addresses of the packet scionWrap built last
+var wrapSrc, wrapDst netip.Addr
+
 func scionWrap(payload []byte, pathSeed uint64) ([]byte, wire.PathSpec) {
 	ps := wire.PathSpec{Kind: "empty", Seed: pathSeed}
 	dst := scionSrcIA
@@ -168,7 +172,18 @@ func scionWrap(payload []byte, pathSeed uint64) ([]byte, wire.PathSpec) {
 	if err != nil {
 		panic(fmt.Sprintf("harness: path %+v: %v", ps, err))
 	}
-	pkt := wire.Pkt{SrcIA: scionSrcIA, DstIA: dst, Src: netlab.Addr(1), Dst: scionSrvIP, Path: pth, SrcPort: scionSrcPrt, DstPort: uint16(scionPort), Payload: payload}
+	// SCION host addresses of either family on either side (the SCION header names them independently of the
+	// underlay, which stays IPv4 loopback): v4/v4 mostly, v6 client, v6 server, both v6
+	wrapSrc, wrapDst = netlab.Addr(1), scionSrvIP
+	switch pathSeed >> 40 % 8 {
+	case 1, 2:
+		wrapSrc = netip.MustParseAddr("fd00:1:2:3::c")
+	case 3, 4:
+		wrapDst = netip.MustParseAddr("fd00:9:8:7::5")
+	case 5:
+		wrapSrc, wrapDst = netip.MustParseAddr("fd00:1:2:3::c"), netip.MustParseAddr("fd00:9:8:7::5")
+	}
+	pkt := wire.Pkt{SrcIA: scionSrcIA, DstIA: dst, Src: wrapSrc, Dst: wrapDst, Path: pth, SrcPort: scionSrcPrt, DstPort: uint16(scionPort), Payload: payload}
 	// extension headers that do not concern the time service: a valid request stays a valid request behind them
 	switch pathSeed >> 8 % 8 {
 	case 2: // what the end host's dispatcher adds when it forwards a packet
@@ -190,6 +205,8 @@ func scionWrap(payload []byte, pathSeed uint64) ([]byte, wire.PathSpec) {
 
 // probeSCION is probe over the SCION listener: replies are the UDP payloads of the SCION packets that came
 // back to the previous hop before the sentinel's reply.
+var mixedFamilies int // probes whose SCION source and destination host addresses are of different families
+
 func probeSCION(p []byte) probeResult {
 	var res probeResult
 	buf := make([]byte, 16384)
@@ -207,6 +224,10 @@ func probeSCION(p []byte) probeResult {
 		dstAddr = netlab.UDPAddr(scionSrvIP, 30041)
 	}
 	raw, ps := scionWrap(p, mix(uint64(sentSeq)+uint64(len(p))))
+	reqSrc, reqDst := wrapSrc, wrapDst
+	if reqSrc.Is4() != reqDst.Is4() {
+		mixedFamilies++
+	}
 	if len(raw) <= 9000 {
 		hop.WriteToUDP(raw, dstAddr)
 	}
@@ -257,7 +278,7 @@ func probeSCION(p []byte) probeResult {
 				res.bad = fmt.Sprintf("reply path (type %d) %x is not the reversed request path (type %d) %x", q.SCION.PathType, gotRaw, wantType, wantRaw)
 			case !from.IP.Equal(dstAddr.IP) || from.Port != dstAddr.Port:
 				res.bad = "reply sent from " + from.String()
-			case q.SCION.DstIA != wantDstIA || q.SCION.SrcIA != wantSrcIA || src.Unmap() != scionSrvIP || dst.Unmap() != netlab.Addr(1):
+			case q.SCION.DstIA != wantDstIA || q.SCION.SrcIA != wantSrcIA || src.Unmap() != reqDst || dst.Unmap() != reqSrc:
 				res.bad = fmt.Sprintf("reply addressed %v,%v -> %v,%v", q.SCION.SrcIA, src, q.SCION.DstIA, dst)
 			case q.UDP.SrcPort != uint16(scionPort) || q.UDP.DstPort != scionSrcPrt:
 				res.bad = fmt.Sprintf("reply ports %d -> %d", q.UDP.SrcPort, q.UDP.DstPort)
@@ -405,7 +426,7 @@ var recGrid = ev.New("c09/grid", "enumeration of every first header byte (256: a
 
 func TestExhaustiveGrid(t *testing.T) { gridBody(t, recGrid, lengths) }
 
-var recGridS = ev.New("c09/grid-scion", "the c09/grid enumeration sent to the SCION listener instead: every probe is the UDP payload of a SCION packet (empty path, one-hop path, or 1..2-segment SCION paths of varying length at their last hop) from a harness end host, with or without extension headers that do not concern the time service (end-to-end option 253, padding, unknown options, hop-by-hop extension), sent from a 'previous hop' socket (on another address than the SCION source host) to the listener's service port or, for a quarter of the probes, to its end-host port 30041; lengths {0,1,47,48,49,52,75,76,77,100,1024,1300}. Same oracle on the unwrapped replies; in addition every reply must come from the listener's socket to the previous hop with ISD-AS, host and ports exchanged and a path whose type and bytes equal an independently computed reversal of the request's. Non-trivial / distinct as for c09/grid")
+var recGridS = ev.New("c09/grid-scion", "the c09/grid enumeration sent to the SCION listener instead: every probe is the UDP payload of a SCION packet (empty path, one-hop path, or 1..2-segment SCION paths of varying length at their last hop) from a harness end host (SCION host addresses IPv4 or IPv6 on either side, in 3 of 8 probes of different families), with or without extension headers that do not concern the time service (end-to-end option 253, padding, unknown options, hop-by-hop extension), sent from a 'previous hop' socket (on another address than the SCION source host) to the listener's service port or, for a quarter of the probes, to its end-host port 30041; lengths {0,1,47,48,49,52,75,76,77,100,1024,1300}. Same oracle on the unwrapped replies; in addition every reply must come from the listener's socket to the previous hop with ISD-AS, host and ports exchanged and a path whose type and bytes equal an independently computed reversal of the request's. Non-trivial / distinct as for c09/grid")
 
 var lengthsSCION = []int{0, 1, 47, 48, 49, 52, 75, 76, 77, 100, 1024, 1300}
 
